@@ -105,6 +105,37 @@ fn tables<C: CI>(ctx: &mut Ctx) {
     });
 }
 
+/// every documented alternative code, placed in a sequence, decodes, prints and compares as its symbol
+fn alt_codes_in_sequences<C: CI>(ctx: &mut Ctx) {
+    let a = C::alpha();
+    let name = C::NAME;
+    ctx.group(&format!("{name}/alternative-codes-in-sequences"), |ctx| {
+        for sy in &a.syms {
+            for &alt in &sy.alt_codes {
+                for pos in [0usize, 1, per_word(a.bits) - 1, per_word(a.bits)] {
+                    ctx.eval();
+                    let n = per_word(a.bits) + 2;
+                    let mut raw = vec![a.syms[0].code; n];
+                    raw[pos] = alt;
+                    let words: Vec<usize> = model::pack_words(a.bits, &raw).iter().map(|w| *w as usize).collect();
+                    let Some(s) = Seq::<C>::from_raw(n, &words) else {
+                        check!(ctx, false, format!("from_raw|{name}|refuses-alternative-code"), "from_raw refuses an image holding the alternative code {alt:#b}");
+                        continue;
+                    };
+                    let got = observe(|| (s.nth(pos).to_bits(), s.get(pos).map(|x| x.to_char()), s.iter().nth(pos).map(|x| x.to_bits()), s.to_string()));
+                    let mut text: Vec<u8> = vec![a.syms[0].ch; n];
+                    text[pos] = sy.ch;
+                    let text = String::from_utf8(text).unwrap();
+                    check!(ctx, got == Ok((sy.code, Some(sy.ch as char), Some(sy.code), text.clone())), format!("alt-code|{name}|decodes-wrong-in-sequence"), "alternative code {alt:#b} of {:?} at position {pos}: nth/get/iter/display = {:?}", sy.ch as char, got);
+                    check!(ctx, s[..] == text.as_str(), format!("alt-code|{name}|sequence-not-equal-to-its-text"), "a sequence holding alternative code {alt:#b} of {:?} does not equal its displayed text {text:?}", sy.ch as char);
+                    nt!(ctx, "{name}/altseq/{alt}/{pos}");
+                }
+            }
+        }
+        cell!(ctx, "{name}/alternative-codes-in-sequences");
+    });
+}
+
 fn complements<C: CI + ComplementMut>(ctx: &mut Ctx) {
     let a = C::alpha();
     let name = C::NAME;
@@ -187,6 +218,7 @@ fn main() {
             ctx.count("race-threads", 8);
         });
         for_each_codec!(tables, ctx);
+        for_each_codec!(alt_codes_in_sequences, ctx);
         for_each_comp_codec!(complements, ctx);
         // copying form on single symbols where implemented
         ctx.group("dna/to_comp", |ctx| {
